@@ -45,6 +45,7 @@ var _ = shared.NewCounter
 //@   mustcall [edge-ProcessError] ProcessError when err == nil && i.ctx != nil && !i.ctx.IsPurgeRequest && ($state == ERROR)
 //@   mustcall [edge-restart] restart when err == nil && i.ctx != nil && !i.ctx.IsPurgeRequest && ($state == RESTART)
 //@   mustcall [edge-ProcessHash] ProcessHash when err == nil && i.ctx != nil && !i.ctx.IsPurgeRequest && ($state == PASS || $state == LOOKUP || $state == NONE)
+//@   callassert [documented-actions-are-not-rejected C06] Runtime: arg0 != nil ==> !(state == LOOKUP || state == PASS || state == ERROR || state == RESTART || state == NONE)
 //@   ensures [log-once C06] logOnce(i, err)
 //@   callassert [hit-flag C06] ProcessHit: i.process.Cached && i.ctx.State == "HIT" && $v != nil
 //@   callassert [miss-flag C06] ProcessMiss: i.ctx.State == "MISS" && $v == nil
@@ -62,6 +63,7 @@ var _ = shared.NewCounter
 //@   mustcall [edge-ProcessPass] ProcessPass when err == nil && i.ctx != nil && !i.ctx.IsPurgeRequest && ($state == PASS)
 //@   mustcall [edge-ProcessError] ProcessError when err == nil && i.ctx != nil && !i.ctx.IsPurgeRequest && ($state == ERROR)
 //@   mustcall [edge-restart] restart when err == nil && i.ctx != nil && !i.ctx.IsPurgeRequest && ($state == RESTART)
+//@   callassert [documented-actions-are-not-rejected C06] Runtime: arg0 != nil ==> !(state == DELIVER || state == PASS || state == ERROR || state == RESTART || state == NONE)
 //@   ensures [log-once C06] logOnce(i, err)
 
 //@ func (*Interpreter).ProcessMiss [C06 C08]
@@ -76,6 +78,7 @@ var _ = shared.NewCounter
 //@   mustcall [edge-ProcessDeliver] ProcessDeliver when err == nil && i.ctx != nil && !i.ctx.IsPurgeRequest && ($state == DELIVER_STALE)
 //@   mustcall [edge-ProcessPass] ProcessPass when err == nil && i.ctx != nil && !i.ctx.IsPurgeRequest && ($state == PASS)
 //@   mustcall [edge-ProcessError] ProcessError when err == nil && i.ctx != nil && !i.ctx.IsPurgeRequest && ($state == ERROR)
+//@   callassert [documented-actions-are-not-rejected C06] Runtime: arg0 != nil ==> !(state == FETCH || state == DELIVER_STALE || state == PASS || state == ERROR || state == NONE)
 //@   ensures [log-once C06] logOnce(i, err)
 
 //@ func (*Interpreter).ProcessPass [C06 C08]
@@ -86,6 +89,7 @@ var _ = shared.NewCounter
 //@   callassert [succ-ProcessError] ProcessError: state == ERROR
 //@   mustcall [edge-ProcessFetch] ProcessFetch when err == nil && i.ctx != nil && !i.ctx.IsPurgeRequest && ($state == PASS)
 //@   mustcall [edge-ProcessError] ProcessError when err == nil && i.ctx != nil && !i.ctx.IsPurgeRequest && ($state == ERROR)
+//@   callassert [documented-actions-are-not-rejected C06] Runtime: arg0 != nil ==> !(state == PASS || state == NONE)
 //@   ensures [log-once C06] logOnce(i, err)
 
 //@ func (*Interpreter).ProcessFetch [C06 C08]
@@ -98,6 +102,7 @@ var _ = shared.NewCounter
 //@   mustcall [edge-ProcessDeliver] ProcessDeliver when err == nil && i.ctx != nil && !i.ctx.IsPurgeRequest && ($state == DELIVER || $state == DELIVER_STALE || $state == PASS || $state == HIT_FOR_PASS)
 //@   mustcall [edge-ProcessError] ProcessError when err == nil && i.ctx != nil && !i.ctx.IsPurgeRequest && ($state == ERROR)
 //@   mustcall [edge-restart] restart when err == nil && i.ctx != nil && !i.ctx.IsPurgeRequest && ($state == RESTART)
+//@   callassert [documented-actions-are-not-rejected C06] Runtime: arg0 != nil ==> !(state == DELIVER || state == DELIVER_STALE || state == HIT_FOR_PASS || state == PASS || state == ERROR || state == RESTART || state == NONE)
 //@   ensures [log-once C06] logOnce(i, err)
 
 //@ func (*Interpreter).ProcessError [C06 C08]
@@ -106,6 +111,7 @@ var _ = shared.NewCounter
 //@   rank 5
 //@   callassert [succ-ProcessDeliver] ProcessDeliver: state == DELIVER || state == DELIVER_STALE
 //@   callassert [succ-restart] restart: state == RESTART
+//@   callassert [documented-actions-are-not-rejected C06] Runtime: arg0 != nil ==> !(state == DELIVER || state == DELIVER_STALE || state == RESTART)
 //@   mustcall [edge-ProcessDeliver] ProcessDeliver when err == nil && i.ctx != nil && !i.ctx.IsPurgeRequest && ($state == DELIVER || $state == DELIVER_STALE)
 //@   mustcall [edge-restart] restart when err == nil && i.ctx != nil && !i.ctx.IsPurgeRequest && ($state == RESTART)
 //@   ensures [log-once C06] logOnce(i, err)
@@ -118,6 +124,7 @@ var _ = shared.NewCounter
 //@   callassert [succ-restart] restart: state == RESTART
 //@   mustcall [edge-ProcessLog] ProcessLog when err == nil && i.ctx != nil && !i.ctx.IsPurgeRequest && ($state == LOG || $state == DELIVER)
 //@   mustcall [edge-restart] restart when err == nil && i.ctx != nil && !i.ctx.IsPurgeRequest && ($state == RESTART)
+//@   callassert [documented-actions-are-not-rejected C06] Runtime: arg0 != nil ==> !(state == DELIVER || state == RESTART || state == NONE)
 //@   ensures [log-once C06] logOnce(i, err)
 
 //@ func (*Interpreter).ProcessLog [C06 C08]
@@ -139,6 +146,7 @@ var _ = shared.NewCounter
 //@   requires okI(i)
 //@   decreases measure(i)
 //@   rank 1
+//@   callassert [documented-actions-are-not-rejected C06] Runtime: arg0 != nil ==> !(state == HASH || state == NONE)
 //@   ensures [log-once C06] logOnce(i, err)
 //@   ensures [bounded C06] err == nil ==> old(i.ctx.Restarts) < limitations.MaxVarnishRestarts
 //@   callassert [restart-bound C06] ProcessRecv: i.ctx.Restarts <= limitations.MaxVarnishRestarts && i.ctx.Restarts == old(i.ctx.Restarts) + 1
